@@ -243,6 +243,20 @@ def run(ctx):
     nontrivial = 0
     for mi in range(nmodels):
         m = ctx.replay_model or lc.gen_model(rng, max_order=ctx.pick(4, 6), max_vocab=ctx.pick(8, 30))
+        if not ctx.replay_model and mi % 6 == 4 and m.saw_unk and m.unk_spelling == b"<unk>" and b"<UNK>" not in m.vocab:
+            # a file that lists BOTH spellings of the unknown word ("Sadly some LMs have <UNK>", lm/vocab.cc): both map to id 0, the later
+            # line wins, the header counts both, the sorted vocabulary stores neither (sixth-round seeded change C04-17 refused such a binary)
+            lines = m.arpa_bytes().split(b"\n")
+            cr = b"\r" if m.crlf else b""
+            out = []
+            for l in lines:
+                if l.rstrip(b"\r").startswith(b"ngram 1="):
+                    l = b"ngram 1=%d" % (int(l.rstrip(b"\r").split(b"=")[1]) + 1) + cr
+                out.append(l)
+                if l.rstrip(b"\r") == b"\\1-grams:":
+                    out.append(b"-1.5\t<UNK>\t-0.25" + cr)
+            m.raw_arpa = b"\n".join(out)
+            stats["both_unk_spellings"] = stats.get("both_unk_spellings", 0) + 1
         sess = lc.Session(ctx, m, "m%d" % mi)
         qs = lc.gen_queries(rng, m, ctx.pick(25, 100))
         base = {"arpa": m.arpa_bytes().decode("latin-1"), "vocab": m.vocab_bytes().decode("latin-1"), "queries": qs[:40]}
@@ -310,6 +324,26 @@ def run(ctx):
                                 problems.append(("spec:recognize:" + typ, "file written by %s recognised as type %s" % (typ, h.get("binary")), rq2))
                             if enum and h.get("enum") != rh.get("enum"):
                                 problems.append(("spec:enumerate:" + typ, "vocabulary enumeration differs after the round trip", rq2))
+                    # the type-erased loader (lm::ngram::LoadVirtual: the Python module's and every type-agnostic program's entry point) must
+                    # hand the caller's Config on: same enumeration, order, bound and answers as the typed class (sixth-round seeded change C04-18)
+                    vo = ["load_method=" + rng.choice(["lazy", "populate", "populate_read", "read"])] + (["enumerate=1"] if iv == "1" else [])
+                    rv = sess.run_impl(lmq, "virtual", qs, model_file=binf, opts=vo)
+                    stats["impl_runs"] += 1
+                    stats["virtual_loads"] = stats.get("virtual_loads", 0) + 1
+                    rqv = dict(rq, loader="LoadVirtual", opts_virtual=vo)
+                    if not rv["head"].startswith("loaded"):
+                        problems.append(("spec:virtual-reload-fails:" + typ, "LoadVirtual does not load the binary file: %s" % rv["head"][:160], rqv))
+                    else:
+                        hv = head_fields(rv["head"])
+                        if hv.get("order") != rh.get("order"):
+                            problems.append(("spec:virtual-order:" + typ, "LoadVirtual order %s vs %s" % (hv.get("order"), rh.get("order")), rqv))
+                        if iv == "1" and hv.get("enum") != rh.get("enum"):
+                            problems.append(("spec:virtual-enumerate:" + typ, "vocabulary enumeration through LoadVirtual differs from the ARPA-built model's (%d vs %d characters)" % (len(hv.get("enum") or ""), len(rh.get("enum") or "")), rqv))
+                        want = [[" ".join(item.split(" ; ")[0].split()[:3]) for item in l.split(" | ")] if l.strip() else [] for l in ref["lines"]]
+                        got = [[x.strip() for x in l.split(" | ")] if l.strip() else [] for l in rv["lines"]]
+                        if got != want:
+                            i = next((i for i in range(min(len(got), len(want))) if got[i] != want[i]), -1)
+                            problems.append(("spec:virtual-answers-differ:" + typ, "answers through LoadVirtual differ from the ARPA-built model (first differing query %d)" % i, rqv))
                         # a file without vocabulary must refuse enumerate_vocab
                     if iv == "0":
                         r = sess.run_impl(lmq, typ, qs[:1], model_file=binf, opts=["enumerate=1"])
